@@ -32,6 +32,8 @@ def run(ctx):
     c16_2(ctx)
     c16_3(ctx)
     c16_4(ctx)
+    c16_2b(ctx)
+    c16_4b(ctx)
 
 
 def c16_1(ctx):
@@ -230,3 +232,83 @@ def c16_4(ctx):
            found=bad or None)
     ctx.floor(R, "operator impls using the complete addition", ops, 9)
     ctx.floor(R, "blst addition call sites", n, 10)
+
+
+def c16_2b(ctx):
+    """is_all_zero decides the canonical-infinity test of G1 decoding and the zero test of secret keys: it must inspect every
+    byte of its argument.  Accepted shapes: the three parts of buf.align_to::<u128>() are each required to be all-zero by
+    `iter().all(|x| x == 0)`, or one such pass over buf itself.  Any window/sampling variant leaves bytes unexamined, so
+    non-canonical encodings of infinity would decode."""
+    R = "C16.2"
+    b = U.body(ctx, R, BL + "secret_key::is_all_zero")
+    if not b:
+        return
+    rows = set()
+    try:
+        for ev, ex in P.enumerate_paths(b):
+            if ex[0] != "return":
+                rows.add(("exit", ex[0]))
+                continue
+            cs = frozenset((str(apnf.N(t)).split(", ('closure'")[0], l[1]) for t, l in P.conds(ev))
+            rows.add((cs, str(apnf.N(P.ret_of(ev))).split(", ('closure'")[0]))
+    except P.Budget:
+        return ctx.missing(R, "is_all_zero:whole-buffer", "path budget")
+    part = lambda k: "('all', ('iter', ('.%d', ('align_to', 'buf')))" % k
+    ok_align = False
+    trues = [(c, r) for c, r in rows if r not in ("0", "False")]
+    falses = [(c, r) for c, r in rows if r in ("0", "False")]
+    if len(trues) == 1 and isinstance(trues[0][0], frozenset):
+        c, r = trues[0]
+        needed = {part(0), part(1), part(2)}
+        have = {t for t, v in c if v is True} | {r}
+        ok_align = have == needed and all(v is True for t, v in c)
+        # every rejecting path is a failed `all` of one of the parts
+        ok_align = ok_align and all(any(t in needed and v is False for t, v in c2) for c2, r2 in falses if isinstance(c2, frozenset))
+    ok_plain = rows == {(frozenset(), "('all', ('iter', 'buf')")}
+    # closures compare each element with zero
+    cl_ok = True
+    ncl = 0
+    for f in ctx.fb.closures_of(b.path):
+        cb = Body(f, ctx.fb)
+        for ev, ex in P.enumerate_paths(cb):
+            if ex[0] == "return":
+                ncl += 1
+                r = apnf.N(P.ret_of(ev))
+                cl_ok = cl_ok and isinstance(r, tuple) and r[0] == "Eq" and r[2] == 0 and not P.conds(ev)
+    ctx.ob(R, "is_all_zero:whole-buffer", (ok_align or ok_plain) and cl_ok and ncl >= 1,
+           "is_all_zero requires every byte to be zero (all three parts of align_to, or one pass over buf; element test `== 0`)",
+           found=None if (ok_align or ok_plain) else sorted(map(str, rows))[:4], where=b.fn.sp)
+
+
+def c16_4b(ctx):
+    """secret-key addition is total modular addition in all three operator forms (&a + &b, a + &b, a += &b): each calls
+    blst_sk_add_n_check(out, &lhs.0, &rhs.0) exactly once, never branches on its return value (which only reports whether the
+    sum is zero -- the reduced sum is always written) and yields `out`.  Otherwise sk addition stops commuting with
+    pk addition for inverse keys (a + (r - a) must be the zero key, whose public key is infinity)."""
+    R = "C16.4"
+    fb = ctx.fb
+    forms = [p for p in fb.fns if "chia_bls::secret_key::SecretKey" in p and "core::ops::arith::Add" in p and fb.fns[p].e["kind"] != "Closure"]
+    n = 0
+    for p in sorted(forms):
+        b = Body(fb.fns[p], fb)
+        ctx.touched(p)
+        calls = [(bi, t) for bi, nm, t in b.calls() if U.flat(nm).endswith("blst_sk_add_n_check")]
+        ok = len(calls) == 1
+        detail = ""
+        if ok:
+            bi, t = calls[0]
+            a = [str(apnf.N(b.operand_term(x))) for x in t["args"]]
+            ok = a[1] == "('.0', 'self')" and a[2] == "('.0', 'rhs')"
+            detail = str(a)
+            # no branch in the function at all (straight-line) => the return value is not consulted
+            switches = [x for x in range(b.n) if x in b.reach and b.blocks[x]["t"]["k"] == "switch"]
+            ok = ok and not switches
+            by_ref = a[0] != "('.0', 'self')"
+            if ok and by_ref:
+                rets = [str(apnf.N(P.ret_of(ev))) for ev, ex in P.enumerate_paths(b) if ex[0] == "return"]
+                ok = len(rets) == 1 and rets[0].startswith("('SecretKey::SecretKey', ('MaybeUninit::assume_init'")
+                detail += " ret=" + (rets[0][:120] if rets else "?")
+        n += 1
+        ctx.ob(R, "sk-add:" + p.split(" as ")[0].strip("<")[-40:] + ("/assign" if "AddAssign" in p else ""), ok,
+               "secret-key addition = blst_sk_add_n_check(out, &self.0, &rhs.0), result always taken, no branch", found=detail[:300], where=fb.fns[p].sp)
+    ctx.floor(R, "secret-key addition operator forms", n, 3)
